@@ -27,6 +27,7 @@ ChangeClauses(pre, ev, post, k) ==
     C("C18.ChangeAtPrefixSumTime", post.now = BeginK(pre.tt, pre.cyc, k))
     \cup C("C18.NewStateIsTimetable", post.state = pre.tt[i][2])
     \cup C("C18.OneRecordPerChange", post.nrec = pre.nrec + 1 /\ post.lastrec = <<post.now, pre.tt[i][2]>>)
+    \cup C("C15.OneScheduleRecordPerChange", post.nrec = pre.nrec + 1 /\ post.lastrec = <<post.now, pre.tt[i][2]>>)
     \cup C("C18.ActionsOncePerRegisteredInOrder", post.calls = pre.reg)
     \cup C("C18.ActionArguments", \A j \in DOMAIN ev.args : ev.args[j] = <<TRUE, post.now, pre.tt[i][2]>>)
     \cup C("C18.RegistryUntouchedByChange", post.reg = pre.reg)
@@ -34,6 +35,7 @@ ChangeClauses(pre, ev, post, k) ==
 NoChangeClauses(pre, ev, post) ==
     C("C18.NoActionsWithoutChange", post.calls = <<>>)
     \cup C("C18.NoRecordWithoutChange", post.nrec = pre.nrec)
+    \cup C("C15.NoScheduleRecordWithoutChange", post.nrec = pre.nrec)
     \cup C("C18.StateKeptWithoutChange", post.state = pre.state)
 
 StepClauses(pre, ev, post) ==
